@@ -153,6 +153,7 @@ func (m *Model) rootsInit() {
 	if !ri.done {
 		Fatal("slice-root summaries did not converge")
 	}
+	m.refineElemWrites()
 }
 
 // mapLabel translates a callee-relative root label into caller-relative labels at a call.
@@ -225,7 +226,10 @@ func (m *Model) rootsOf(v ssa.Value, seen map[ssa.Value]bool) RootSet {
 	case *ssa.Convert:
 		out.add(m.rootsOf(v.X, seen))
 	case *ssa.Phi:
-		for _, e := range v.Edges {
+		for i, e := range v.Edges {
+			if m.siteFilter != nil && m.phiEdgeRefuted(v, i, m.siteFilter) {
+				continue
+			}
 			out.add(m.rootsOf(e, seen))
 		}
 	case *ssa.MakeSlice:
